@@ -153,6 +153,12 @@ func NewReader(data io.ReaderAt, size int64, opt *ReaderOptions) (*Reader, error
 		if err == nil {
 			return false
 		}
+		if IsReadError(err) {
+			// Only malformed content can be recovered from.  Anything
+			// else (in particular a failure of the underlying reader)
+			// must reach the caller in every error handling mode.
+			return true
+		}
 		if opt.ErrorHandling == ErrorHandlingReport {
 			var e *MalformedFileError
 			if errors.As(err, &e) {
